@@ -323,6 +323,45 @@ def _lookup(repo, rep):
               "R04.3", pe.qualname, "python expressions rewrite attribute "
               "access to the fallback lookup", construct="transform",
               detail=src(tr) if tr is not None else "missing")
+    # ... every attribute access: the visitor class hands each Attribute node
+    # to the transform and then its children to the visitor; any other
+    # visit_* method of the class (or its bases) ends every path in
+    # generic_visit -- a method that returns the node after visiting some
+    # of its fields by hand leaves the others (a callee, a slice) unrewritten
+    vc = repo.cls("chameleon.astutil.ItemLookupOnAttributeErrorVisitor")
+    va = vc.methods.get("visit_Attribute")
+    oka = False
+    if va is not None:
+        rets = [n for n in ast.walk(va.node) if isinstance(n, ast.Return)]
+        tv = L.inline_locals(va.node, rets[0].value) if len(rets) == 1 \
+            and rets[0].value is not None else None
+        oka = tv is not None and L.match(L.pat(
+            "self.generic_visit(self.apply_transform(node))", "expr"),
+            tv) is not None
+    rep.check(oka, "R04.3", vc.qualname + ".visit_Attribute",
+              "an attribute node is transformed, then its children are "
+              "visited", construct="visitor-attribute",
+              where=L.where(va) if va else "")
+    holes = []
+    for cq in (vc.qualname, "chameleon.astutil.NodeTransformerBase"):
+        for mn, m in sorted(repo.cls(cq).methods.items()):
+            if not mn.startswith("visit_") or (
+                    cq == vc.qualname and mn == "visit_Attribute"):
+                continue
+            for pth in P.enum_paths(m.node.body):
+                last = pth[-1]
+                if last[0] == "raise":
+                    continue
+                if not (last[0] == "return" and last[1] is not None and
+                        src(last[1]).startswith("self.generic_visit(")):
+                    holes.append("%s (line %d)" % (
+                        mn, last[-1].lineno if len(last) > 2 else
+                        m.node.lineno))
+    rep.check(not holes, "R04.3", vc.qualname, "no other visit method of "
+              "the attribute rewriter ends without handing all children of "
+              "the node to the visitor", construct="visitor-total",
+              where=L.where(vc) if hasattr(vc, "node") else "",
+              detail=", ".join(sorted(set(holes))))
     ta = repo.func(TALES + "transform_attribute")
     text = src(ta.node.body[0])
     rep.check("'lookup(object, name)'" in text and
